@@ -75,7 +75,7 @@ class C04(CheckBase):
         for i in range(rng.randint(1, 3)):
             k = rng.randint(3, len(all_actions))
             subs.append({'actions': sorted(rng.sample(all_actions, k)) if i else all_actions,
-                         'stall': rng.choice([0, 0, 0.02, 0.3]), 'gzip': rng.random() < 0.5})
+                         'stall': rng.choice([0, 0, 0, 0.02, 0.3, 12.0]), 'gzip': rng.random() < 0.5})
         return {'sched': draw_sched_config(rng), 'world': cfg, 'writers': writers, 'ops': ops, 'subs': subs}
 
     # ------------------------------------------------------------------
